@@ -462,6 +462,10 @@ pub fn apply_sem(sem: Sem, args: &[RRes]) -> Option<RV> {
         }
         Sem::Ctx => args[0].clone().ok(),
         Sem::Boom => args[0].clone().ok(),
+        Sem::Lift => match &args[0] {
+            Ok(RV::Bool(b)) => Some(RV::bool_arr(vec![*b])),
+            _ => None,
+        },
     }
 }
 
